@@ -248,7 +248,9 @@ func mkT9() func() *c01T9 {
 	return func() *c01T9 {
 		innerX := map[string]int8{"a": sx}
 		innerY := map[string]int8{"b": sy}
-		c := c01T9{MM: map[string]map[string]int8{"x": innerX, "y": innerY, "z": innerX}, N: n}
+		// (the defaults are copied more than once on their way into the view, so the sharing has to
+		// survive a first copy: one inner map under three entries)
+		c := c01T9{MM: map[string]map[string]int8{"w": innerY, "x": innerX, "y": innerX, "z": innerX}, N: n}
 		switch share {
 		case 1:
 			c.Labels = map[string]int8{"a": sx}
